@@ -6,7 +6,9 @@ TARGETS = {"C01-r1": "C01 C07 C08 C20", "C02-r1": "C02 C20", "C03-r1": "C03 C10 
            "C06-r1": "C06", "C07-r1": "C07 C08 C01", "C08-r1": "C08 C07", "C09-r1": "C09 C10 C03", "C10-r1": "C10 C03 C20",
            "C11-r1": "C11 C03", "C12-r1": "C12 C14", "C13-r1": "C13", "C14-r1": "C14 C16", "C15-r1": "C15 C16",
            "C16-r1": "C16", "C17-r1": "C17 C16 C12", "C18-r1": "C18", "C19-r1": "C19", "C20-r1": "C20 C01 C02 C07"}
-names = sys.argv[1:] or sorted(TARGETS)
+for _k in list(TARGETS):
+    TARGETS[_k.replace("-r1", "-r2")] = TARGETS[_k]
+names = sys.argv[1:] or sorted(n for n in TARGETS if os.path.isdir("/verif/seeded/" + n))
 for n in names:
     ids = TARGETS[n]
     out = subprocess.run(["/verif/notes/tryseed.sh", n] + ids.split(), capture_output=True, text=True,
